@@ -65,7 +65,7 @@ def replay(path):
         still = ('VIOLATION property=%s' % doc['property']) in r.stdout
         print('obligation still fails on the current tree:', still)
         return 1 if still else 0
-    ok, err = build_steps_bin() if w.get('kind') == 'steps' else build_replay_bin()
+    ok, err = build_steps_bin() if w.get('kind') in ('steps', 'steps-lin') else build_replay_bin()
     if not ok:
         print('replay crate does not build:', err); return 2
     res = witness.run_witness(w)
